@@ -4,7 +4,7 @@ Export schema as SDL.
 """
 
 import itertools
-from typing import Any, Sequence, Union
+from typing import Any, Optional, Sequence, Union
 
 from .._string_utils import wrapped_lines
 from .._utils import flatten
@@ -397,17 +397,20 @@ class ASTSchemaPrinter:
     def print_schema_definition(self, schema: Schema) -> str:
         directives = self.print_directives(schema)
 
+        def follows_convention(
+            root: Optional[ObjectType], default_name: str
+        ) -> bool:
+            # Without a schema definition the root types are found by name:
+            # an unset root must not have a namesake among the other types.
+            if root is None:
+                return default_name not in schema.types
+            return root.name == default_name
+
         if (
             not directives
-            and (not schema.query_type or schema.query_type.name == "Query")
-            and (
-                not schema.mutation_type
-                or schema.mutation_type.name == "Mutation"
-            )
-            and (
-                not schema.subscription_type
-                or schema.subscription_type.name == "Subscription"
-            )
+            and follows_convention(schema.query_type, "Query")
+            and follows_convention(schema.mutation_type, "Mutation")
+            and follows_convention(schema.subscription_type, "Subscription")
         ):
             return ""
 
